@@ -181,19 +181,29 @@ func t1Caller(p *Prog, o *obls, fn *ssa.Function, get *ssa.Call, spec refcountSp
 		c, ok := in.(*ssa.Call)
 		return ok && calleeName(&c.Call) == spec.release && p.origin(c.Call.Args[0]) == ssa.Value(get)
 	}
+	// `defer pkt.Release()` releases once at function exit on every path that executed the defer statement: for the
+	// balance at the returns it counts where it is registered; it never precedes a use
+	isReleaseOrDefer := func(in ssa.Instruction) bool {
+		if isRelease(in) {
+			return true
+		}
+		d, ok := in.(*ssa.Defer)
+		return ok && calleeName(&d.Call) == spec.release && len(d.Call.Args) > 0 && p.origin(d.Call.Args[0]) == ssa.Value(get)
+	}
 	starts := nonNilSuccessors(p, fn, get)
 	var problems []string
-	var before map[ssa.Instruction]countMask
+	var before, beforeAll map[ssa.Instruction]countMask
 	if len(starts) == 0 {
 		before = seededCounts(fn, get.Block(), isRelease)
+		beforeAll = seededCounts(fn, get.Block(), isReleaseOrDefer)
 	}
-	check := func(before map[ssa.Instruction]countMask) {
+	check := func(before, beforeAll map[ssa.Instruction]countMask) {
 		for _, b := range fn.Blocks {
 			last := b.Instrs[len(b.Instrs)-1]
 			if _, isRet := last.(*ssa.Return); !isRet || b == fn.Recover {
 				continue
 			}
-			m := before[last]
+			m := beforeAll[last]
 			if m == 0 {
 				continue
 			}
@@ -263,10 +273,10 @@ func t1Caller(p *Prog, o *obls, fn *ssa.Function, get *ssa.Call, spec refcountSp
 		})
 	}
 	if len(starts) == 0 {
-		check(before)
+		check(before, beforeAll)
 	}
 	for _, s := range starts {
-		check(seededCounts(fn, s, isRelease))
+		check(seededCounts(fn, s, isRelease), seededCounts(fn, s, isReleaseOrDefer))
 	}
 	if len(problems) > 0 {
 		o.bad("T1", key, pos, strings.Join(dedupe(problems), "; "))
